@@ -30,6 +30,14 @@
 (* (have_base_address) must not leak between lists; expected outcome and list *)
 (* meanings come from ListWriter.tla (C16's model).                           *)
 (*                                                                            *)
+(* Mode "twins": sibling entries of the same shape (tag, attribute names and  *)
+(* forms) that differ only in the VALUE of one attribute, for every attribute *)
+(* kind and every pair of its probe payloads, plus a third entry repeating    *)
+(* the first value, and reference twins.  The abbreviation table must merge   *)
+(* exactly the entries whose abbreviations are equal INCLUDING the            *)
+(* implicit-const value (key = tag, has_children, list of name, form, constant),  *)
+(* and every entry must read back with its own values.                        *)
+(*                                                                            *)
 (* Every final state: the spec's size table is checked against its emit table *)
 (* (Size = Len(Emit)), the layout is checked for self-consistency, and one    *)
 (* replay case is emitted with the expected read-back or the expected error.  *)
@@ -244,6 +252,50 @@ ListsNext ==
                be |-> (c.v + c.lp + Len(rs) + Salt) % 4 = 0, probe |-> "lists"]
 
 -----------------------------------------------------------------------------
+(* Mode "twins" *)
+TwinKinds == {p.k : p \in Probes} \cup {"UnitRef", "DebugInfoRef"}
+PairsOf(k) == {S \in SUBSET {p \in Probes : p.k = k /\ "ops" \notin DOMAIN p} : Cardinality(S) = 2}   \* operation lists name skeleton entries
+TwinScript(p1, p2) ==
+    LET name == NameOf(p1) IN
+    <<AddCall(1, 1, "DW_TAG_variable"), AddCall(1, 1, "DW_TAG_variable"), AddCall(1, 1, "DW_TAG_variable"),
+      AddCall(1, 1, "DW_TAG_variable"),
+      SetCall(1, 2, "DW_AT_decl_line", V("Udata", N(5))), SetCall(1, 2, name, p1),
+      SetCall(1, 3, "DW_AT_decl_line", V("Udata", N(5))), SetCall(1, 3, name, p2),
+      SetCall(1, 4, "DW_AT_decl_line", V("Udata", N(5))), SetCall(1, 4, name, p1),
+      SetCall(1, 5, "DW_AT_decl_line", V("Udata", N(6))), SetCall(1, 5, name, p2),
+      AddCall(2, 1, "DW_TAG_variable"), AddCall(2, 1, "DW_TAG_variable"),
+      SetCall(2, 2, name, p2), SetCall(2, 3, name, p1)>>
+RefTwinScript(k) ==
+    LET r(u, e) == IF k = "UnitRef" THEN [k |-> "UnitRef", e |-> e] ELSE [k |-> "DebugInfoRef", u |-> u, e |-> e] IN
+    <<AddCall(1, 1, "DW_TAG_variable"), AddCall(1, 1, "DW_TAG_variable"), AddCall(1, 1, "DW_TAG_variable"),
+      AddCall(2, 1, "DW_TAG_variable"), AddCall(2, 1, "DW_TAG_variable"),
+      SetCall(1, 2, "DW_AT_type", r(1, 3)), SetCall(1, 3, "DW_AT_type", r(1, 4)), SetCall(1, 4, "DW_AT_type", r(1, 2)),
+      SetCall(2, 2, "DW_AT_type", r(IF k = "UnitRef" THEN 2 ELSE 1, IF k = "UnitRef" THEN 3 ELSE 4)),
+      SetCall(2, 3, "DW_AT_type", r(2, 2))>>
+TwinsFan == /\ c.stage = 0 /\ "k" \notin DOMAIN c
+            /\ \E k \in TwinKinds : \E v \in (IF AllPlacements THEN {2, 3, 4, 5} ELSE {5, 2 + (Salt % 3)}) :
+                 c' = [stage |-> 0, k |-> k, v |-> v]
+TwinsNext ==
+    /\ c.stage = 0 /\ "k" \in DOMAIN c
+    /\ LET w == IF (c.v + Len(c.k) + Salt) % 2 = 0 THEN 4 ELSE 8
+           encs == <<Enc(c.v, w, 8), Enc(<<5, 4, 3, 2>>[((c.v + Salt) % 4) + 1], 12 - w, 8)>>
+           be == (c.v + Len(c.k) + Salt) % 3 = 0 IN
+       IF c.k \in {"UnitRef", "DebugInfoRef"}
+       THEN c' = [stage |-> 1, encs |-> encs, calls |-> RefTwinScript(c.k), be |-> be, probe |-> "twins"]
+       ELSE \E S \in PairsOf(c.k) :
+              LET p1 == CHOOSE x \in S : TRUE
+                  p2 == CHOOSE x \in S : x # p1 IN
+              c' = [stage |-> 1, encs |-> encs, calls |-> TwinScript(p1, p2), be |-> be, probe |-> "twins"]
+
+(* the abbreviation table merges two entries iff their abbreviations are equal, *)
+(* the implicit-const values included                                          *)
+AbbrevLemma(D) ==
+    \A u \in DOMAIN D.units :
+        LET U == Reordered(D.units[u])  L == Layout(D.units[u]) IN
+        \A e1 \in Range(L.order) : \A e2 \in Range(L.order) :
+            (L.codes[e1] = L.codes[e2]) <=> (Abbrev(U.ents[e1], U.enc) = Abbrev(U.ents[e2], U.enc))
+
+-----------------------------------------------------------------------------
 (* Mode "builder": c = [stage, encs, calls, ns (structure calls), nm (modifier calls), last] *)
 BEncs == LET v == <<4, 5, 2, 3>>[(Salt % 4) + 1]  w == IF Salt % 2 = 0 THEN 4 ELSE 8 IN
          <<Enc(v, w, 8), Enc(<<5, 3, 4, 2>>[(Salt % 4) + 1], 12 - w, 4)>>
@@ -297,11 +349,12 @@ SetUnits == /\ c.stage = 0 /\ c.phase = "S" /\ c.ns = 0 /\ c.nu < MaxUnits
             /\ c' = [c EXCEPT !.nu = @ + 1]
 
 Init == c = IF Mode = "kinds" THEN [stage |-> -1]
-            ELSE IF Mode \in {"wide", "lists"} THEN [stage |-> 0]
+            ELSE IF Mode \in {"wide", "lists", "twins"} THEN [stage |-> 0]
             ELSE [stage |-> 0, phase |-> "S", calls |-> <<>>, ns |-> 0, nm |-> 0, nu |-> 1]
 Next == IF Mode = "kinds" THEN KindsFan \/ KindsNext \/ BadNext \/ Bad3Next
         ELSE IF Mode = "wide" THEN WideFan \/ WideNext
         ELSE IF Mode = "lists" THEN ListsFan \/ ListsNext
+        ELSE IF Mode = "twins" THEN TwinsFan \/ TwinsNext
         ELSE StructNext \/ ToMods \/ ModNext \/ BuilderFinish \/ SetUnits
 
 -----------------------------------------------------------------------------
@@ -336,12 +389,13 @@ ListsLemma(D, res, be) ==
         LET U == D.units[u]  lenc == LEnc(U.enc, be) IN
         (\E i \in DOMAIN U.rt : LW!MustReject(U.rt[i], lenc, Lp(U))) \/ (\E i \in DOMAIN U.lt : LW!MustReject(U.lt[i], lenc, Lp(U)))
         => ~res.ok
-Inv == (c.stage = 1 /\ (Mode \in {"kinds", "wide", "lists"} \/ Emit1(c))) =>
+Inv == (c.stage = 1 /\ (Mode \in {"kinds", "wide", "lists", "twins"} \/ Emit1(c))) =>
        LET D == Normalise(Apply(Start(c.encs), c.calls, 1))
            res == WriteResult(D, c.be) IN
        /\ SizeLemma(D)
        /\ LayoutLemma(D, res)
        /\ ListsLemma(D, res, c.be)
+       /\ AbbrevLemma(D)
        /\ PrintT(<<"CASE", ToJson([sys |-> "unitw", be |-> c.be, probe |-> c.probe,
                                    units |-> [u \in DOMAIN c.encs |-> [version |-> c.encs[u].version, format |-> c.encs[u].word,
                                                                       asz |-> c.encs[u].asz]],
